@@ -160,6 +160,11 @@ def render_package(job, pkg):
     work = job["work"]
     idx = pkg["slot"]
     doc = pkg["doc"]
+    if pkg["kind"] == "dosini":
+        pdir = os.path.join(work, "pkgs", "p%d.package" % idx)
+        for rel in permute_names(list(pkg["files"]), seed, "files%d" % idx):
+            write_text(os.path.join(pdir, rel), pkg["files"][rel])
+        return pdir, [], None
     if pkg["kind"] == "flowir":
         doc = intify(doc)
     doc = permute_keys(doc, seed, "doc%d" % idx)
